@@ -10,11 +10,9 @@ VERIF = os.path.dirname(os.path.dirname(os.path.dirname(os.path.abspath(__file__
 OUT = os.path.join(VERIF, "coq", "theories", "Generated_nnls.v")
 
 def die(msg):
+    # the previous Generated_nnls.v (if any) is left in place so that the model can still be run to look for a
+    # failing input; run.py marks the proof obligations as broken because of the non-zero status
     sys.stderr.write("nnls translator: " + msg + "\n")
-    try:
-        os.remove(OUT)
-    except OSError:
-        pass
     sys.exit(1)
 
 def strip_comments(s):
